@@ -42,6 +42,8 @@ func init() {
 	firsts["C03"] = c03.FirstCalls
 	firsts["C08"] = c08.FirstCalls
 	firsts["C15"] = c15.FirstCalls
+	firsts["C13"] = c13.FirstCalls
+	firsts["C14"] = c14.FirstCalls
 	props["C01"] = prop{c01.Run, c01.Replay}
 	props["C02"] = prop{c02.Run, c02.Replay}
 	props["C03"] = prop{c03.Run, c03.Replay}
